@@ -310,11 +310,26 @@ pub struct Built {
     pub ndocs: u32,
 }
 
+thread_local! {
+    /// when set, `SegBuilder::new` on this thread writes through `SingleSegmentIndexWriter`
+    /// (segment writer finalised directly: no worker thread, no segment updater)
+    static SINGLE_SEGMENT_WRITER: std::cell::Cell<bool> = const { std::cell::Cell::new(false) };
+}
+
+pub fn set_single_segment_writer(on: bool) {
+    SINGLE_SEGMENT_WRITER.with(|c| c.set(on));
+}
+
+enum AnyWriter {
+    Multi(IndexWriter),
+    Single(Box<tantivy::indexer::SingleSegmentIndexWriter>),
+}
+
 pub struct SegBuilder {
     pub specs: Vec<FieldSpec>,
     pub models: Vec<FieldModel>,
     pub index: Index,
-    writer: IndexWriter,
+    writer: AnyWriter,
     pub ndocs: u32,
     cur: TantivyDocument,
     end_pos: Vec<u32>,
@@ -385,10 +400,17 @@ impl SegBuilder {
         }
         let schema = sb.build();
         let index = Index::create_in_ram(schema);
-        let writer: IndexWriter = index
-            .writer_with_num_threads(1, budget)
-            .map_err(|e| format!("writer: {e}"))?;
-        writer.set_merge_policy(Box::new(NoMergePolicy));
+        let writer = if SINGLE_SEGMENT_WRITER.with(|c| c.get()) {
+            AnyWriter::Single(Box::new(
+                tantivy::indexer::SingleSegmentIndexWriter::new(index.clone(), budget).map_err(|e| format!("single-segment writer: {e}"))?,
+            ))
+        } else {
+            let writer: IndexWriter = index
+                .writer_with_num_threads(1, budget)
+                .map_err(|e| format!("writer: {e}"))?;
+            writer.set_merge_policy(Box::new(NoMergePolicy));
+            AnyWriter::Multi(writer)
+        };
         let n = specs.len();
         let models = specs
             .iter()
@@ -645,9 +667,12 @@ impl SegBuilder {
 
     pub fn finish_doc(&mut self) -> Result<(), String> {
         let doc = std::mem::take(&mut self.cur);
-        self.writer
-            .add_document(doc)
-            .map_err(|e| format!("add_document: {e}"))?;
+        match &mut self.writer {
+            AnyWriter::Multi(w) => {
+                w.add_document(doc).map_err(|e| format!("add_document: {e}"))?;
+            }
+            AnyWriter::Single(w) => w.add_document(doc).map_err(|e| format!("single-segment add_document: {e}"))?,
+        }
         for fi in 0..self.specs.len() {
             let n = self.ntok[fi];
             self.models[fi].norms.push(n);
@@ -663,8 +688,14 @@ impl SegBuilder {
     }
 
     pub fn finish(mut self) -> Result<Built, String> {
-        self.writer.commit().map_err(|e| format!("commit: {e}"))?;
-        drop(self.writer);
+        match self.writer {
+            AnyWriter::Multi(mut w) => {
+                w.commit().map_err(|e| format!("commit: {e}"))?;
+            }
+            AnyWriter::Single(w) => {
+                w.finalize().map_err(|e| format!("single-segment finalize: {e}"))?;
+            }
+        }
         Ok(Built {
             index: self.index,
             specs: self.specs,
